@@ -2,6 +2,8 @@ package main
 
 import (
 	"os"
+	"regexp"
+	"sort"
 	"crypto/sha256"
 	"encoding/base64"
 	"encoding/json"
@@ -60,10 +62,141 @@ func fieldValue(f string, v int) string {
 	}
 }
 
-type bbsSigner struct{ priv []byte }
+type bbsSigner struct {
+	priv   []byte
+	signed []string // the message vector of the last signature: proof statements, then document statements
+}
 
 func (s *bbsSigner) Sign(data []byte) ([]byte, error) {
+	s.signed = nil
+	for _, l := range lines(string(data)) {
+		s.signed = append(s.signed, string(l))
+	}
+
 	return bbs.New().Sign(lines(string(data)), s.priv)
+}
+
+// recVerifier records the statements the proof suite hands to its verifier.
+type recVerifier struct {
+	inner interface {
+		Verify(pubKeyValue *sigverifier.PublicKey, doc, signature []byte) error
+	}
+	doc []string
+}
+
+func (r *recVerifier) Verify(pubKeyValue *sigverifier.PublicKey, doc, signature []byte) error {
+	r.doc = nil
+	for _, l := range lines(string(doc)) {
+		r.doc = append(r.doc, string(l))
+	}
+
+	return r.inner.Verify(pubKeyValue, doc, signature)
+}
+
+var (
+	reBlank = regexp.MustCompile(`^_:c14n(\d+)$`)
+	reBnid  = regexp.MustCompile(`^<urn:bnid:_:c14n(\d+)>$`)
+)
+
+// splitStatement: subject, predicate, object of a canonical N-Quad of the default graph.
+func splitStatement(l string) []string {
+	l = strings.TrimSuffix(strings.TrimSpace(l), " .")
+
+	i := strings.Index(l, " ")
+	if i < 0 {
+		return []string{l}
+	}
+
+	j := strings.Index(l[i+1:], " ")
+	if j < 0 {
+		return []string{l[:i], l[i+1:]}
+	}
+
+	return []string{l[:i], l[i+1 : i+1+j], l[i+2+j:]}
+}
+
+// credTerm renders the credential-level observation for the model: tokens other than blank node labels and their
+// urn:bnid: IRIs are named by the rank of their text among all such texts of the case (bytewise order).
+func credTerm(np int, signed, c0, vdoc []string) string {
+	texts := map[string]bool{}
+	ok := true
+
+	each := func(f func(tok string)) {
+		for _, list := range [][]string{signed, c0, vdoc} {
+			for _, l := range list {
+				for _, t := range splitStatement(l) {
+					f(t)
+				}
+			}
+		}
+	}
+	special := func(t string) (string, bool) {
+		for _, re := range []*regexp.Regexp{reBlank, reBnid} {
+			if m := re.FindStringSubmatch(t); m != nil {
+				if len(m[1]) != 1 { // labels from c14n10 on sort differently as text than as numbers
+					ok = false
+				}
+
+				if re == reBlank {
+					return "TBlank " + m[1], true
+				}
+
+				return "TBnid " + m[1], true
+			}
+		}
+
+		return "", false
+	}
+
+	each(func(t string) {
+		if _, sp := special(t); !sp {
+			texts[t] = true
+			// the transformations of the code work on substrings: a text that merely CONTAINS a label is outside the model
+			if strings.Contains(t, "_:c14n") {
+				ok = false
+			}
+		}
+	})
+
+	if !ok {
+		return ""
+	}
+
+	sorted := make([]string, 0, len(texts))
+	for t := range texts {
+		sorted = append(sorted, t)
+	}
+
+	sort.Strings(sorted)
+
+	rank := map[string]int{}
+	for i, t := range sorted {
+		rank[t] = i
+	}
+
+	pos := func(prefix string) int { return sort.SearchStrings(sorted, prefix) }
+	stmts := func(list []string) string {
+		out := make([]string, len(list))
+
+		for i, l := range list {
+			var ts []string
+
+			for _, t := range splitStatement(l) {
+				if sp, is := special(t); is {
+					ts = append(ts, sp)
+				} else {
+					ts = append(ts, fmt.Sprintf("TPlain %d", rank[t]))
+				}
+			}
+
+			out[i] = hx.CoqList(ts)
+		}
+
+		return hx.CoqList(out)
+	}
+
+	return fmt.Sprintf("{| cr_rk := {| bnid_pos := %d; blank_pos := %d |}; cr_np := %s; cr_signed := %s; cr_c0 := %s; cr_vdoc := %s |}",
+		pos("<urn:bnid:_:c14n"), pos("_:c14n"), hx.CoqNat(np), stmts(signed), stmts(c0), stmts(vdoc))
 }
 func (s *bbsSigner) Alg() string { return "" }
 
@@ -310,10 +443,13 @@ func runCred(kind string, c *CredCase, tr *hx.Trace) {
 		addEd()
 	}
 
+	signers := make([]*bbsSigner, k)
+
 	for j := range keys {
+		signers[j] = &bbsSigner{priv: keys[j].priv}
 		must(vc.AddLinkedDataProof(&verifiable.LinkedDataProofContext{
 			SignatureType: "BbsBlsSignature2020", SignatureRepresentation: verifiable.SignatureProofValue,
-			Suite:              bbsblssignature2020.New(suite.WithSigner(&bbsSigner{priv: keys[j].priv})),
+			Suite:              bbsblssignature2020.New(suite.WithSigner(signers[j])),
 			VerificationMethod: keys[j].vm,
 		}, processor.WithDocumentLoader(ld)))
 	}
@@ -338,9 +474,13 @@ func runCred(kind string, c *CredCase, tr *hx.Trace) {
 		fmt.Fprintln(os.Stderr, string(derivedBytes))
 	}
 
+	var lastDoc []string // the statements the suite handed to its verifier in the last verifyWith
+
 	verifyWith := func(b []byte, n []byte, f verifiable.PublicKeyFetcher) (string, string) {
-		ps := bbsblssignatureproof2020.New(suite.WithCompactProof(),
-			suite.WithVerifier(bbsblssignatureproof2020.NewG2PublicKeyVerifier(n)))
+		rv := &recVerifier{inner: bbsblssignatureproof2020.NewG2PublicKeyVerifier(n)}
+		ps := bbsblssignatureproof2020.New(suite.WithCompactProof(), suite.WithVerifier(rv))
+
+		defer func() { lastDoc = rv.doc }()
 
 		return fenced(func() error {
 			_, e := verifiable.ParseCredential(b, verifiable.WithJSONLDDocumentLoader(ld),
@@ -474,6 +614,7 @@ func runCred(kind string, c *CredCase, tr *hx.Trace) {
 
 		atts := []Attack{{Kind: "honest"}, {Kind: "nonce", Pos: 0}, {Kind: "key"}}
 		v0, d0 := verifyWith(singleBytes, nonce, fetcher)
+		vdoc := lastDoc
 		v1, _ := verifyWith(singleBytes, nonceBytes(c.Nonce+1), fetcher)
 		v2, _ := verifyWith(singleBytes, nonce, otherFetcher)
 		vs := []string{v0, v1, v2}
@@ -563,12 +704,6 @@ func runCred(kind string, c *CredCase, tr *hx.Trace) {
 
 		for i := range vs {
 			if vs[i] != expect[i] {
-				if atts[i].Label == "claim-added" && vs[i] == vAccept {
-					fail("supplemented-suffix-accept", fmt.Sprintf("derived proof #%d: a credential with an ADDED claim (statements sorting after the revealed ones) verifies: VerifyProof ignores the surplus messages", pi+1))
-
-					continue
-				}
-
 				d := ""
 				if i == 0 {
 					d = ": " + d0
@@ -593,7 +728,13 @@ func runCred(kind string, c *CredCase, tr *hx.Trace) {
 		}
 
 		if len(rd) == len(derSt) { // the statement mapping is complete: tie it to the model
-			rec.Coq = coqCase(mc, o, nil)
+			ct := ""
+			if pi < len(signers) && len(signers[pi].signed) == count {
+				ct = credTerm(np, signers[pi].signed, derSt, vdoc)
+			}
+
+			obs["statement_model"] = ct != ""
+			rec.Coq = coqCaseCred(mc, o, nil, ct)
 		}
 
 		rec.Class = fmt.Sprintf("cred form=%s bbs=%d/%d ed=%v present=%v reveal=%v top=%v/%v", c.Form, pi+1, k, c.Ed, c.Present, c.Reveal, c.Top, c.TopRev)
